@@ -339,7 +339,8 @@ class Check:
         self.transitions += mc["generated"]
         self.mc.append({k: mc[k] for k in ("module", "cfg", "generated", "distinct", "depth", "replays", "wall_s", "actions")})
 
-    def add_validation(self, v, cases_path=None, behaviours=None, boundary=("reset",), cid_key="cid", classes=None):
+    def add_validation(self, v, cases_path=None, behaviours=None, boundary=("reset",), cid_key="cid", classes=None, universe=None):
+        self._universe = universe
         """Fold a validation result in: count traces, classify verdicts."""
         self.events += v["events"]
         if behaviours is not None:
@@ -385,8 +386,12 @@ class Check:
                         break
         n = len([v for v in self.violations if v[1]])
         path = os.path.join(REPLAYS, "%s-%d.json" % (self.prop, n))
-        json.dump({"property": self.prop, "class": cls, "trace_line": at, "case": case, "events": beh[-12:]},
-                  open(path, "w"), indent=1)
+        evs = beh[-6:]
+        blob = json.dumps(evs)
+        if len(blob) > 200000:
+            evs = [{"ev": e.get("ev"), "o": e.get("o"), "note": "event too large, re-run the replay to see it"} for e in evs]
+        json.dump({"property": self.prop, "class": cls, "trace_line": at, "case": case,
+                   "universe": getattr(self, "_universe", None), "events": evs}, open(path, "w"), indent=1)
         self.violations.append((cls, path))
 
     def finish(self, rule="", explanation="", exhaustive=False):
@@ -447,12 +452,12 @@ def generic_replay(prop, module, path):
     with open(cases, "w") as f:
         f.write(json.dumps(rec["case"]) + "\n")
     trace = os.path.join(wd, "trace.ndjson")
-    run_harness(info["driver"], cases, trace, env=info.get("env"))
+    run_harness(info["driver"], cases, trace, env=info.get("env"), universe=rec.get("universe"))
     v = tlc_validate(info["trace_module"], info["trace_cfg"], trace, wd, shards=1, boundary=info.get("boundary", ("reset",)))
     c = Check(prop, "quick")
     c.add_validation(v, cases_path=cases, behaviours=1, boundary=info.get("boundary", ("reset",)))
     for e in v["lines"]:
-        print(e)
+        print(e if len(e) < 4000 else e[:4000] + " ...")
     known = {(k["property"], k["class"]) for k in load_known() if k.get("status", "open") == "open"}
     bad = [x for x in v["verdicts"] if (prop, x[1]) not in known]
     if bad or not v["accepted"]:
